@@ -1,5 +1,6 @@
 """C16, C17: pagination links (spec/Pager.tla, spec/trace/PagerTrace.tla, harness/fam_pager.go)."""
 from propdefs import bfs, sim
+import props_PN
 
 TRACE = dict(module="PagerTrace", cfg="PagerTrace")
 ASSUME = [
@@ -11,7 +12,7 @@ PROPS = {
     "C17": dict(
         stages=[dict(name="main", gen=dict(runs=dict(quick=[bfs("MC_Pager", "C17_conv")], thorough=[bfs("MC_Pager", "C17_conv")])),
                      sample=dict(quick=16000, thorough=None), trace=TRACE,
-                     stratify=lambda c: (c["p"]["n"], c["p"]["k"], c["p"]["algo"]))],
+                     stratify=lambda c: (c["p"]["n"], c["p"]["k"], c["p"]["algo"])), props_PN.STAGE_C17],
         rule="cases = every (N,k) with 2<=N<=12 x URL family x separator x wrapper x current-page decoration (PageNumber) "
              "and x Next/Prev label sets (PrevNext), from spec/Pager.tla; non-trivial = runs that returned a next link",
         nontrivial_key="next_found", assumptions=ASSUME, exhaustive_tiers=("thorough",)),
@@ -19,7 +20,7 @@ PROPS = {
         stages=[dict(name="main", gen=dict(runs=dict(quick=[bfs("MC_Pager", "C16_quick"), bfs("MC_Pager", "C16_q3"), sim("MC_Pager", "C16_thorough", 3000, 5), bfs("MC_Pager", "C17_conv")],
                                                      thorough=[bfs("MC_Pager", "C16_thorough", heap="12g"), bfs("MC_Pager", "C17_conv")])),
                      sample=dict(quick=40000, thorough=600000), trace=TRACE,
-                     stratify=lambda c: (c["p"]["kind"], c["p"]["algo"], len(c["p"].get("anchors", []))))],
+                     stratify=lambda c: (c["p"]["kind"], c["p"]["algo"], len(c["p"].get("anchors", [])))), props_PN.STAGE_C16],
         rule="cases = every sequence of up to 2 (quick) / 3 (thorough) anchors over 14 href kinds x 3 label kinds x position of the plain "
              "current-page number x both finders x 3 page-URL shapes, plus the conventional pagers; non-trivial = runs that returned a next or prev link",
         nontrivial_key="next_found", assumptions=ASSUME, exhaustive_tiers=()),
